@@ -170,6 +170,8 @@ fn run_typed<T: Serialize + DeserializeOwned + Clone>(c: &C) -> Option<(String, 
             match stack {
                 0 => read_items::<T>(Box::new(fr), ps.len() + 2, &mut w),
                 1 => read_items::<T>(Box::new(BufReader::new(fr)), ps.len() + 2, &mut w),
+                // 100 + cap: BufReader of capacity cap (0 included: every read bypasses the buffer)
+                s if *s >= 100 => read_items::<T>(Box::new(BufReader::with_capacity((*s - 100) as usize, fr)), ps.len() + 2, &mut w),
                 _ => match lz4::Decoder::new(fr) { Ok(d) => read_items::<T>(Box::new(d), ps.len() + 2, &mut w), Err(_) => { w.n(1).s("e"); } },
             }
             let v = calls.borrow().clone();
@@ -286,6 +288,8 @@ fn gen(rng: &mut Rng, tier: Tier) -> Vec<Case> {
             out.push(Case::new("random-multi-fault", enc(&C::Wr { stack, cap, kind, plan, ps })));
         } else {
             let plan: Vec<RF> = (0..rng.range(0, 10)).map(|_| match rng.below(10) { 0 => RF::Fail, 1 | 2 | 3 => RF::Interrupted, 4 => RF::Give(u64::MAX), _ => RF::Give(rng.range(1, 12)) }).collect();
+            // the buffered reader also with small capacities (below, at and above the 8-byte header and the payloads)
+            let stack = if stack == 1 && rng.chance(2, 3) { 100 + *rng.pick(&[0u64, 1, 2, 7, 8, 9, 16, 41, 64, 8192]) } else { stack };
             out.push(Case::new("random-multi-fault", enc(&C::Rd { stack, kind, plan, ps })));
         }
     }
@@ -295,7 +299,7 @@ fn gen(rng: &mut Rng, tier: Tier) -> Vec<Case> {
 pub fn prop() -> PropDef {
     PropDef {
         id: "C09",
-        rule: "corpus, then for record-size lists with payloads of 0 (unit items), 1, 8191/8192/8193 (around the BufWriter capacity), 9000, 65536, 70000 bytes and for each writer stack (bare storage, BufWriter, lz4 encoder) and reader stack (bare, BufReader, lz4 decoder): a dry run learns the sequence of storage write/read calls, then EVERY call (sampled to 5, thorough 40, per configuration when there are more) gets a single short write (accept 1, n/2, n-1 of n bytes), a single hard error, a single short read (1, n/2, n-1), a single Interrupted, a single hard read error; plus random multi-fault plans with BufWriter capacities 8..8192. Non-trivial: at least one fault of the plan is actually reached (for the modelled stacks: the model consumed a plan entry). Distinct = distinct input token sequence.",
+        rule: "corpus, then for record-size lists with payloads of 0 (unit items), 1, 8191/8192/8193 (around the BufWriter capacity), 9000, 65536, 70000 bytes and for each writer stack (bare storage, BufWriter, lz4 encoder) and reader stack (bare, BufReader, lz4 decoder): a dry run learns the sequence of storage write/read calls, then EVERY call (sampled to 5, thorough 40, per configuration when there are more) gets a single short write (accept 1, n/2, n-1 of n bytes), a single hard error, a single short read (1, n/2, n-1), a single Interrupted, a single hard read error; plus random multi-fault plans with BufWriter capacities 8..8192 and BufReader capacities 0..8192. Non-trivial: at least one fault of the plan is actually reached (for the modelled stacks: the model consumed a plan entry). Distinct = distinct input token sequence.",
         observable: "write side: Ok/Err of dump and flush/finish and, when Ok, the bytes that reached the storage (lz4: the items read back by the real decoder); read side: the item sequence up to and including the first error item",
         gen, exec, shrink, child: None,
     }
